@@ -5,8 +5,10 @@ import json
 from run import stage
 
 RULE = ("programs = exhaustive family `scen` (1 feature, optional rule, backgrounds, 1 scenario / outline, every first-non-pass "
-        "position x outcome) + seeded random families `tree` and `big`; each with configurations (tag expression, stop, dry-run, "
-        "show_skipped, continue_after_failed_step, capture switches) and hook fault sets; TLC explores every (program, cfg, fault set) "
+        "position x outcome incl. KeyboardInterrupt, skip, skip-then-fail, bad argument, nested execute_steps) + seeded random families "
+        "`tree` and `big` + cleanup-only and logging families; some programs with hooks that exclude their element or register "
+        "cleanups; each with configurations (tag expression, stop, dry-run, wip, show_skipped, continue_after_failed_step, autoretry, "
+        "async steps, capture switches, logging level / filter / clear-handlers, stream-replacing steps) and hook fault sets; TLC explores every (program, cfg, fault set) "
         "with all clauses as invariant, the real ModelRunner is run on exactly these inputs and TLC judges the recorded traces; "
         "distinct = distinct (program, cfg, fault set)")
 
